@@ -17,6 +17,7 @@ Action formats (JSON-able lists):
   ["settle"]                          deliver everything queued
   ["lag", actor, seconds]             `actor` is slow (inbox not served) for `seconds` while the others run
   ["lagcmd", actor, seconds, topic, payload]   the command arrives while `actor` is slow
+  ["postlag", actor, seconds, topic, payload]  `actor` processes the command at once and is slow afterwards
 """
 from __future__ import annotations
 
@@ -95,6 +96,8 @@ class Runner:
     def do(self, a):
         s, w = self.sys, self.world
         self.step_no += 1
+        for m in self.monitors:
+            m.before_action(self, a)
         op = a[0]
         if op == "mqtt":
             s.mqtt_in(a[1], a[2])
@@ -132,6 +135,19 @@ class Runner:
         elif op == "lag":
             # actor `a[1]` is slow: its inbox is not served for a[2] seconds (<= latency bound) while the others run
             act = w.actor(a[1])
+            w.frozen.add(act)
+            self.run_prompt(a[2])
+            w.frozen.discard(act)
+            w.settle(order=self.order)
+            self.at_settled()
+        elif op == "postlag":
+            # the command is processed by `a[1]` at once, which is then slow for a[2] s while the others react to what it told them
+            act = w.actor(a[1])
+            s.mqtt_in(a[3], a[4])
+            guard = 0
+            while not act.actor_inbox.empty() and act.actor_ref.is_alive() and guard < 50 and w.deadlock is None:
+                w.deliver(act)
+                guard += 1
             w.frozen.add(act)
             self.run_prompt(a[2])
             w.frozen.discard(act)
@@ -280,6 +296,8 @@ def gen_action(rng: random.Random, profile: str = "general"):
             topic = rng.choice(list(SETTINGS))
             payload = rng.choice(SETTINGS[topic])
         return ["race", actor, topic, payload, rng.choice([0.0, 0.3, 0.9, -1])]
+    if x < 0.96:
+        return ["postlag", "Filtration", rng.choice([1.5, 3.0]), "/settings/mode", rng.choice(MODES)]
     if x < 0.965:
         return ["lagcmd", rng.choice(["Disinfection", "Heating", "Swim", "Tank"]), rng.choice([1.5, 3.0]), "/settings/mode", rng.choice(MODES)]
     if x < 0.97:
